@@ -49,10 +49,16 @@ pub enum HOp {
     RngSample { o: usize, s: usize },
     Iter { o: usize, s: usize, n: usize },
     CloneReplace { o: usize },
+    /// `objects[o].clone_from(&objects[from])` (same concrete type only)
+    CloneFrom { o: usize, from: usize },
     Restart { o: usize, fmt: Fmt },
 }
 #[derive(Clone, Debug, Serialize, Deserialize)]
 pub struct HistCase {
+    /// compare every object's outputs with a run of that object ALONE in a fresh child
+    /// process (no other object ever sampled there): the fresh-process isolation oracle
+    #[serde(default)]
+    pub isolate: bool,
     pub kind: String,
     pub objects: Vec<ObjDecl>,
     pub streams: Vec<StreamDecl>,
@@ -77,6 +83,7 @@ pub struct HStats {
     pub faults_total: u64,
     pub panics_skipped: u64,
     pub json_skipped_nonfinite: u64,
+    pub isolation_runs: u64,
     pub digest: u64,
     pub variants: BTreeSet<String>,
 }
@@ -133,7 +140,7 @@ pub fn exec(case: &HistCase, mode: Mode, st: &mut HStats) -> Result<(), HFail> {
         specs.push(spec);
     }
     // never-restarted twins (C15 oracle)
-    let twins: Vec<Box<dyn Obj>> = if mode == Mode::Serde {
+    let mut twins: Vec<Box<dyn Obj>> = if mode == Mode::Serde {
         specs.iter().map(|s| build_caught(s)).collect::<Result<_, _>>().map_err(|e| hf(0, "harness", e, &specs[0]))?
     } else {
         Vec::new()
@@ -141,6 +148,9 @@ pub fn exec(case: &HistCase, mode: Mode, st: &mut HStats) -> Result<(), HFail> {
     let mut streams: Vec<SimRng> = case.streams.iter().map(|s| SimRng::with_faults(s.seed, s.faults.clone())).collect();
     st.faults_total += case.streams.iter().map(|s| s.faults.len() as u64).sum::<u64>();
     let mut d = Digest::new();
+    // recorded (spec, pre-state, n, outputs) of every call, for the order-independence check
+    let mut recorded: Vec<(usize, DistSpec, SimRng, usize, Vec<Out>)> = Vec::new();
+    let mut iso: BTreeMap<usize, Vec<(usize, [u64; 5], Vec<u64>)>> = BTreeMap::new();
 
     for (k, op) in case.ops.iter().enumerate() {
         st.ops += 1;
@@ -190,6 +200,12 @@ pub fn exec(case: &HistCase, mode: Mode, st: &mut HStats) -> Result<(), HFail> {
                 }
                 d.add(streams[*s].pos);
                 let post_state = streams[*s].state();
+                if mode == Mode::Purity && recorded.len() < 30_000 {
+                    recorded.push((k, spec.clone(), pre.clone(), n, out.clone()));
+                }
+                if mode == Mode::Purity && case.isolate && pre.pending_faults() == 0 && n == 1 {
+                    iso.entry(*o).or_default().push((k, pre.raw_state(), out[0].bits()));
+                }
 
                 // (1) re-execution with a fresh object on the recorded pre-state, as
                 // plain repeated sample() calls
@@ -236,11 +252,9 @@ pub fn exec(case: &HistCase, mode: Mode, st: &mut HStats) -> Result<(), HFail> {
                     }
                     // (3) clones / twins of this object produce the same output
                     for (j, od) in case.objects.iter().enumerate() {
-                        let related = match od.how {
-                            How::CloneOf(t) | How::TwinOf(t) => t == *o || (j == *o),
-                            How::Build => false,
-                        } || (j != *o && specs[j] == *spec);
-                        if !related || j == *o {
+                        // related = currently holds a value of equal parameters (clone, twin,
+                        // clone_from target); `specs` is kept up to date by CloneFrom
+                        if j == *o || specs[j] != *spec {
                             continue;
                         }
                         st.twin_checks += 1;
@@ -289,6 +303,32 @@ pub fn exec(case: &HistCase, mode: Mode, st: &mut HStats) -> Result<(), HFail> {
                     return Err(hf(k, "impure(clone)", format!("{}: clone != original", specs[*o].label()), &specs[*o]));
                 }
                 objs[*o] = c;
+            }
+            HOp::CloneFrom { o, from } => {
+                if *o >= objs.len() || *from >= objs.len() || o == from {
+                    continue;
+                }
+                let (a, b) = if o < from {
+                    let (x, y) = objs.split_at_mut(*from);
+                    (&mut x[*o], &y[0])
+                } else {
+                    let (x, y) = objs.split_at_mut(*o);
+                    (&mut y[0], &x[*from])
+                };
+                if a.clone_from_obj(&**b) {
+                    // object o is now a clone of `from`: it must behave like a fresh value
+                    // built from `from`'s parameters
+                    specs[*o] = specs[*from].clone();
+                    if mode == Mode::Serde {
+                        twins[*o] = build_caught(&specs[*o]).map_err(|e| hf(k, "harness", e, &specs[*o]))?;
+                    }
+                    if a.eq_obj(&**b) == Some(false) {
+                        return Err(hf(k, "impure(clone)", format!("{}: clone_from result != source", specs[*o].label()), &specs[*o]));
+                    }
+                    if a.debug() != b.debug() {
+                        return Err(hf(k, "impure(clone)", format!("{}: clone_from result prints differently from its source: {} vs {}", specs[*o].label(), a.debug(), b.debug()), &specs[*o]));
+                    }
+                }
             }
             HOp::Restart { o, fmt } => {
                 if *o >= objs.len() || mode != Mode::Serde {
@@ -339,11 +379,110 @@ pub fn exec(case: &HistCase, mode: Mode, st: &mut HStats) -> Result<(), HFail> {
             }
         }
     }
+    // (6) order independence: the recorded calls are re-executed in REVERSE order by fresh
+    // objects on their recorded pre-states.  State hidden outside the value (a static or
+    // thread-local cache) makes a result depend on what ran before it.
+    if mode == Mode::Purity {
+        for (k, spec, pre, n, out) in recorded.iter().rev() {
+            let fresh = build_caught(spec).map_err(|e| hf(*k, "harness", e, spec))?;
+            let mut p2 = pre.clone();
+            p2.budget = p2.pos + CALL_BUDGET * *n as u64;
+            st.reexecutions += 1;
+            let r = guarded(|| (0..*n).map(|_| fresh.sample(&mut p2)).collect::<Vec<Out>>());
+            match r {
+                Caught::Ok(v) if same_seq(&v, out) => {}
+                Caught::Ok(v) => {
+                    return Err(hf(
+                        *k,
+                        "impure(order)",
+                        format!(
+                            "{}: the same value on the same stream state returned {:?} when the calls of this history ran in reverse order, but {:?} in the original order",
+                            spec.label(),
+                            v.iter().map(|x| x.show()).collect::<Vec<_>>(),
+                            out.iter().map(|x| x.show()).collect::<Vec<_>>()
+                        ),
+                        spec,
+                    ))
+                }
+                _ => return Err(hf(*k, "impure(order)", format!("{}: re-execution in reverse order panicked", spec.label()), spec)),
+            }
+        }
+    }
+    // (7) fresh-process isolation: each object's calls are repeated ALONE in a new child
+    // process on the recorded stream states.  Anything another object left behind in this
+    // process (static / thread-local state) cannot exist there.
+    if mode == Mode::Purity && case.isolate {
+        for (o, calls) in &iso {
+            let spec = &specs[*o];
+            // the object's parameters may have changed through CloneFrom: only calls made
+            // under the final parameters are shipped (others are skipped, conservatively)
+            let req = json!({"spec": spec, "states": calls.iter().map(|c| c.1.to_vec()).collect::<Vec<_>>()});
+            st.isolation_runs += 1;
+            match isolate_in_child(&req) {
+                Err(e) => return Err(hf(0, "harness", format!("isolation child: {e}"), spec)),
+                Ok(outs) => {
+                    for ((k, _, bits), got) in calls.iter().zip(outs.iter()) {
+                        if bits != got {
+                            return Err(hf(
+                                *k,
+                                "impure(isolation)",
+                                format!(
+                                    "{}: on the same stream state this value returned bits {:x?} inside the history but {:x?} when run alone in a fresh process (state left behind by another object?)",
+                                    spec.label(),
+                                    bits,
+                                    got
+                                ),
+                                spec,
+                            ));
+                        }
+                    }
+                }
+            }
+        }
+    }
     for s in &streams {
         st.faults_fired += s.fired as u64;
     }
     st.digest = d.0;
     Ok(())
+}
+
+/// Run `verif-sim isolate` as a child: stdin = {"spec":..,"states":[[s0,s1,s2,s3,pos],..]},
+/// stdout = one line of JSON: [[bits..],..]
+fn isolate_in_child(req: &Value) -> Result<Vec<Vec<u64>>, String> {
+    use std::io::Write;
+    use std::process::{Command, Stdio};
+    let exe = std::env::current_exe().map_err(|e| e.to_string())?;
+    let mut child = Command::new(exe).arg("isolate").stdin(Stdio::piped()).stdout(Stdio::piped()).stderr(Stdio::null()).spawn().map_err(|e| e.to_string())?;
+    child.stdin.take().unwrap().write_all(serde_json::to_string(req).unwrap().as_bytes()).map_err(|e| e.to_string())?;
+    let out = child.wait_with_output().map_err(|e| e.to_string())?;
+    if !out.status.success() {
+        return Err(format!("child exited with {}", out.status));
+    }
+    serde_json::from_slice(&out.stdout).map_err(|e| e.to_string())
+}
+
+/// child side of the isolation oracle
+pub fn isolate_main() -> i32 {
+    let mut input = String::new();
+    if std::io::Read::read_to_string(&mut std::io::stdin(), &mut input).is_err() {
+        return 2;
+    }
+    let Ok(req) = serde_json::from_str::<Value>(&input) else { return 2 };
+    let Ok(spec) = serde_json::from_value::<DistSpec>(req["spec"].clone()) else { return 2 };
+    let Ok(states) = serde_json::from_value::<Vec<[u64; 5]>>(req["states"].clone()) else { return 2 };
+    let Ok(obj) = build_caught(&spec) else { return 2 };
+    let mut outs: Vec<Vec<u64>> = Vec::with_capacity(states.len());
+    for st in states {
+        let mut rng = SimRng::from_raw(st);
+        rng.budget = rng.pos + CALL_BUDGET;
+        match guarded(|| obj.sample(&mut rng)) {
+            Caught::Ok(o) => outs.push(o.bits()),
+            _ => outs.push(vec![]),
+        }
+    }
+    println!("{}", serde_json::to_string(&outs).unwrap());
+    0
 }
 
 // ---------------------------------------------------------------------------
@@ -393,13 +532,88 @@ pub fn pool(seed: u64) -> Vec<DistSpec> {
     v
 }
 
+/// A value of the same family that agrees with `spec` in one parameter or in a derived
+/// constant (mode, mean): hidden state keyed on part of the parameters needs such pairs
+/// to collide.
+pub fn related(spec: &DistSpec, r: &mut SimRng) -> Option<DistSpec> {
+    let b = |r: &mut SimRng, n: u64| env::below(r, n);
+    let mut s2 = spec.clone();
+    match spec.family {
+        Family::Binomial => {
+            let (n, p) = (spec.n[0], spec.p[0]);
+            if !(p > 0.0 && p < 1.0) || n >= 1 << 40 {
+                return None;
+            }
+            match b(r, 3) {
+                0 => {
+                    // same mode floor((n+1)p), different n
+                    let m = ((n as f64 + 1.0) * p).floor();
+                    let n2 = n.checked_mul([2u64, 4, 10, 1000, 5_000_000][b(r, 5) as usize])?;
+                    let p2 = (m + 0.5) / (n2 as f64 + 1.0);
+                    s2.n = vec![n2];
+                    s2.p = vec![p2];
+                }
+                1 => s2.p = vec![(p * [0.5, 0.9, 1.1][b(r, 3) as usize]).min(0.999)],
+                _ => s2.n = vec![n.checked_mul(2)?],
+            }
+        }
+        Family::Hypergeometric => {
+            let k = b(r, 3) as usize;
+            s2.n[k] = match k {
+                0 => spec.n[0].checked_mul(2)?,
+                _ => spec.n[k] / 2,
+            };
+        }
+        Family::Alias | Family::Tree => {
+            // same length, different total
+            if !s2.n.is_empty() && s2.wty.map(|w| !w.is_float()).unwrap_or(false) {
+                let i = b(r, s2.n.len() as u64) as usize;
+                s2.n[i] = if s2.n[i] > 1 { s2.n[i] - 1 } else { s2.n[i] + 1 };
+                if s2.n.iter().all(|x| *x == 0) {
+                    return None;
+                }
+            } else if !s2.p.is_empty() && s2.wty.map(|w| w.is_float()).unwrap_or(false) {
+                let i = b(r, s2.p.len() as u64) as usize;
+                s2.p[i] = s2.p[i] * 0.5 + 0.25;
+            } else {
+                return None;
+            }
+        }
+        _ => {
+            if spec.p.is_empty() {
+                return None;
+            }
+            let i = b(r, spec.p.len() as u64) as usize;
+            let f = [0.5, 2.0, 1.0 + 1e-3][b(r, 3) as usize];
+            s2.p[i] = spec.p[i] * f;
+            if spec.scalar == Scalar::F32 {
+                s2.p[i] = s2.p[i] as f32 as f64;
+            }
+        }
+    }
+    if s2 == *spec || build_caught(&s2).is_err() {
+        return None;
+    }
+    Some(s2)
+}
+
 pub fn gen_case(pool: &[DistSpec], r: &mut SimRng, mode: Mode) -> HistCase {
     let b = |r: &mut SimRng, n: u64| env::below(r, n);
-    let n_base = 1 + b(r, 3) as usize;
+    // 1 in 48 histories is a long interleaving of two values of ONE family on one shared
+    // stream (collisions in family-specific hidden state need related values and many calls)
+    let long = mode == Mode::Purity && b(r, 48) == 0;
+    let n_base = if long { 2 } else { 1 + b(r, 3) as usize };
+    let same_family = long || b(r, 2) == 0;
+    let mut first_family: Option<Family> = None;
     let mut objects: Vec<ObjDecl> = Vec::new();
     for _ in 0..n_base {
         let spec = loop {
             let s = &pool[b(r, pool.len() as u64) as usize];
+            if let (true, Some(f)) = (same_family, first_family) {
+                if s.family != f && b(r, 400) != 0 {
+                    continue;
+                }
+            }
             if mode == Mode::Serde {
                 // only types that implement the serde traits (registry decides)
                 if matches!(s.family, Family::Zipf | Family::Zeta | Family::Dirichlet) {
@@ -408,6 +622,9 @@ pub fn gen_case(pool: &[DistSpec], r: &mut SimRng, mode: Mode) -> HistCase {
             }
             break s.clone();
         };
+        // the partner of a long interleaving is a *related* value of the first object
+        let spec = if long && !objects.is_empty() { related(&objects[0].spec, r).unwrap_or(spec) } else { spec };
+        first_family.get_or_insert(spec.family);
         let k = objects.len();
         objects.push(ObjDecl { spec: spec.clone(), how: How::Build });
         if mode == Mode::Purity {
@@ -422,7 +639,7 @@ pub fn gen_case(pool: &[DistSpec], r: &mut SimRng, mode: Mode) -> HistCase {
             }
         }
     }
-    let n_streams = 1 + b(r, 3) as usize;
+    let n_streams = if long { 1 } else { 1 + b(r, 3) as usize };
     let lattice = boundary_lattice();
     let streams: Vec<StreamDecl> = (0..n_streams)
         .map(|_| {
@@ -438,7 +655,7 @@ pub fn gen_case(pool: &[DistSpec], r: &mut SimRng, mode: Mode) -> HistCase {
         })
         .collect();
     let span = if b(r, 4) == 0 { 190 } else { 40 };
-    let n_ops = 10 + b(r, span) as usize;
+    let n_ops = if long { 4000 } else { 10 + b(r, span) as usize };
     let mut ops = Vec::with_capacity(n_ops);
     for _ in 0..n_ops {
         let o = b(r, objects.len() as u64) as usize;
@@ -446,18 +663,26 @@ pub fn gen_case(pool: &[DistSpec], r: &mut SimRng, mode: Mode) -> HistCase {
         let x = b(r, 100);
         let op = if mode == Mode::Serde && x < 25 {
             HOp::Restart { o, fmt: if b(r, 2) == 0 { Fmt::Val } else { Fmt::Json } }
-        } else if x < 70 {
+        } else if x < 70 || long {
             HOp::Sample { o, s }
         } else if x < 82 {
             HOp::RngSample { o, s }
         } else if x < 94 {
             HOp::Iter { o, s, n: 1 + b(r, 6) as usize }
-        } else {
+        } else if x < 97 {
             HOp::CloneReplace { o }
+        } else {
+            HOp::CloneFrom { o, from: b(r, objects.len() as u64) as usize }
         };
         ops.push(op);
     }
-    HistCase { kind: if mode == Mode::Purity { "purity-history".into() } else { "serde-history".into() }, objects, streams, ops }
+    let mut streams = streams;
+    if long {
+        for s in streams.iter_mut() {
+            s.faults.clear();
+        }
+    }
+    HistCase { isolate: long, kind: if mode == Mode::Purity { "purity-history".into() } else { "serde-history".into() }, objects, streams, ops }
 }
 
 fn fails_same(case: &HistCase, mode: Mode, class: &str) -> bool {
@@ -606,6 +831,9 @@ impl Engine for HistEngine {
             res.stat_sum("twin_comparisons", st.twin_checks as f64);
             res.stat_sum("calls_skipped_because_they_panicked", st.panics_skipped as f64);
             res.stat_sum("json_restarts_skipped_nonfinite", st.json_skipped_nonfinite as f64);
+            res.stat_sum("fresh_process_isolation_runs", st.isolation_runs as f64);
+            res.inj("fresh-process-isolation", st.isolation_runs);
+            res.fired("fresh-process-isolation", st.isolation_runs);
             res.inj("single-word", st.faults_total);
             res.fired("single-word", st.faults_fired);
             for (f, n) in &st.restarts {
@@ -628,6 +856,7 @@ impl Engine for HistEngine {
                             HOp::RngSample { .. } => 'r',
                             HOp::Iter { .. } => 'i',
                             HOp::CloneReplace { .. } => 'c',
+                            HOp::CloneFrom { .. } => 'f',
                             HOp::Restart { .. } => 'R',
                         })
                         .collect();
